@@ -19,7 +19,8 @@ ASSUMPTIONS = [
     'pre-state: the memory is an arbitrary array (solver variable); addresses, data and enables are variables: one step covers every history',
     'two ENABLED writes in one cycle are assumed to target distinct addresses (same-address double write is documented as undefined)',
     'CompiledSimulation: initial contents are concrete (baked into the C text): checked by BMC from boundary contents; its hash-map helper '
-    'text is checked separately (vf/chelper.py) and modelled as a total map here',
+    'text (insert/lookup) is given its own meaning by vf/chelper.py and checked against a functional map over three symbolic inserts + '
+    'lookup (keys < 2^16, bucket chains <= 3, unwinding assertions discharged); elsewhere it is modelled as a total map',
     'ROM: list / dict (with and without pad_with_zeros) / function data; holes raise PyrtlError exactly when documented',
     'stubs/merge points of vf/simdrv.py',
 ]
@@ -122,6 +123,8 @@ def cases(tier, seed):
             out.append(dict(d, k='bmc_uninit', backend=be, K=3 if nw == 1 else 2))
     out.append({'fam': 'MEM', 'aw': 2, 'bw': 4, 'nr': 1, 'nw': 1, 'enable': False, 'k': 'step', 'backend': 'sim'})
     out.append({'fam': 'MEM', 'aw': 2, 'bw': 4, 'nr': 1, 'nw': 1, 'enable': False, 'k': 'step', 'backend': 'fast'})
+    out.append({'fam': 'HELPER', 'k': 'chelper', 'limbs': 1, 'backend': 'compiled'})
+    out.append({'fam': 'HELPER', 'k': 'chelper', 'limbs': 2, 'backend': 'compiled'})
     for data in ('list', 'short_list', 'dict', 'sparse_dict', 'func'):
         for pad in (False, True):
             for aw, bw in ((1, 3), (3, 5), (4, 70)):
@@ -268,8 +271,41 @@ def run_rom(case, ob, site):
         ob.prove_all(goals, r.pc, v)
 
 
+def helper_design(limbs):
+    pyrtl.reset_working_block()
+    bw = 8 if limbs == 1 else 70
+    m = pyrtl.MemBlock(bitwidth=bw, addrwidth=16, name='m', asynchronous=True)
+    wa, wd, we, ra = pyrtl.Input(16, 'wa'), pyrtl.Input(bw, 'wd'), pyrtl.Input(1, 'we'), pyrtl.Input(16, 'ra')
+    m[wa] <<= pyrtl.MemBlock.EnabledWrite(wd, we)
+    o = pyrtl.Output(bw, 'rd')
+    o <<= m[ra]
+    return pyrtl.working_block(), bw
+
+
+def run_chelper(case, ob, site):
+    """the C hash-map helper text (insert/lookup) implements a map: BMC over three symbolic inserts and a symbolic lookup"""
+    from .. import chelper
+    block, bw = helper_design(case['limbs'])
+    cm = CompiledModel(block)
+    try:
+        goal, assume, unwinding, hv = chelper.map_obligation(cm.text, case['limbs'], nins=3, unroll=4)
+    except chelper.CHelperError as e:
+        raise sym.HarnessError('helper text outside the recognised subset: %s' % e)
+
+    def extract(m):
+        return {'keys': [m.eval(k, model_completion=True).as_long() for k in hv['keys']],
+                'vals': [m.eval(x, model_completion=True).as_long() for x in hv['vals']],
+                'q': m.eval(hv['q'], model_completion=True).as_long()}
+    ob.prove('helper:lookup-after-3-inserts==functional-map', goal, assume, None, site=site + ':map', extract=extract, vacuity=True)
+    for i, u in enumerate(unwinding):
+        ob.prove('helper:unwinding-assertion-%d' % i, z3.Not(u), assume, None, site=site + ':unwinding')
+    ob.paths += 1
+
+
 def run_case(case, ob, tier):
     site = site_of(case)
+    if case['k'] == 'chelper':
+        return run_chelper(case, ob, site)
     if case['k'] == 'rom':
         return run_rom(case, ob, site)
     return run_mem(case, ob, site)
@@ -277,6 +313,21 @@ def run_case(case, ob, tier):
 
 def replay(cex):
     case = cex['case']
+    if case['k'] == 'chelper':
+        block, bw = helper_design(case['limbs'])
+        sim = pyrtl.CompiledSimulation(block=block)
+        ref = {}
+        mask = (1 << bw) - 1
+        for k, x in zip(cex['keys'], cex['vals']):
+            x = (x & mask) or 1          # a non-zero word, so that a lost entry shows against the default 0
+            sim.step({'wa': k & 0xffff, 'wd': x, 'we': 1, 'ra': 0})
+            ref[k & 0xffff] = x
+        bad = []
+        for a in sorted(set(list(ref) + [cex['q'] & 0xffff])):
+            sim.step({'wa': 0, 'wd': 0, 'we': 0, 'ra': a})
+            if sim.inspect('rd') != ref.get(a, 0):
+                bad.append('after writing %r: read of address %d returns %d, expected %d' % (ref, a, sim.inspect('rd'), ref.get(a, 0)))
+        return bool(bad), '\n'.join(bad)
     block0 = designs.build(case)
     be = case['backend']
     mv = cex.get('model', {})
